@@ -133,6 +133,13 @@ impl Runner {
                 c.set_wrap(w);
                 "ok".into()
             }
+            ["drop", id] => {
+                let Ok(id) = id.parse::<usize>() else { return "bad-op".into() };
+                if !c.drop_memo(id) {
+                    return "bad-op".into();
+                }
+                self.after(mode, None)
+            }
             ["oncl"] => {
                 c.set_oncl();
                 "ok".into()
@@ -318,6 +325,9 @@ impl Runner {
             }
             ["read", id] => {
                 let Ok(id) = id.parse::<usize>() else { return "bad-op".into() };
+                if c.sh.lock().unwrap().dropped.contains(&id) {
+                    return "bad-op".into();
+                }
                 let Some(v) = c.read(id) else { return "bad-op".into() };
                 self.after(mode, Some((id, v)))
             }
@@ -377,6 +387,10 @@ impl Runner {
                         verdict = format!("fail not-scratch expected {}", c.scratch(id));
                     } else if let Some(r) = log.iter().find(|r| r.glitch.is_some()) {
                         verdict = format!("fail mixture node {} read {:?}", r.node, r.glitch);
+                    } else if let Some(r) = log.iter().find(|r| !r.justified) {
+                        // an untracked read contributes the value it had when the computation last ran: a body that
+                        // re-runs although none of its TRACKED inputs changed has replaced that snapshot
+                        verdict = format!("fail untracked-not-snapshot node {} re-ran, no tracked input changed", r.node);
                     }
                     format!("{v} ## {verdict}")
                 }
